@@ -299,6 +299,34 @@ def check(case, ctx):
                 msg = model.check_coordmap(g, s, label + " result for " + nm, introduced=tuple(d for d in ed if d not in s.dims))
                 if msg:
                     ctx.v(ID, "broadcast_arrays:coordmap", msg)
+        # NumPy-like broadcasting of a size-1 shared dimension: a restricted to one label along d is replicated along b's labels
+        shared = [d_ for d_ in m.dims if d_ in mb.dims and len(m.labels[m.dims.index(d_)]) > 1]
+        if shared:
+            d_ = shared[0]
+            k_ = m.dims.index(d_)
+            sp1 = {"dims": list(m.dims), "labels": [list(l) if i != k_ else [l[0]] for i, l in enumerate(m.labels)], "kinds": sp["kinds"],
+                   "values": np.take(m.values, [0], axis=k_)}
+            a1 = gen.build(sp1)
+            label1 = "broadcast_arrays(a1, b) with a1 of size 1 along shared %r: a1.dims=%r b.dims=%r" % (d_, m.dims, mb.dims)
+            res1, exc1 = ctx.call(label1, lambda: da.broadcast_arrays(a1, b), operands=(a1, b))
+            ctx.outcomes['variants-checked'] += 1
+            if exc1 is not None:
+                ctx.v(ID, "broadcast_arrays:singleton-raised:" + type(exc1).__name__, "%s raised %s: %s" % (label1, type(exc1).__name__, str(exc1)[:150]))
+            elif common.is_da(res1[0]):
+                g1 = model.observe(res1[0])
+                bl = mb.labels[mb.dims.index(d_)]
+                if d_ not in g1.dims or not model.labels_eq(g1.labels[g1.dims.index(d_)], bl):
+                    ctx.v(ID, "broadcast_arrays:singleton-labels", "%s: labels of %r are %r, expected b's %r" % (label1, d_, g1.labels[g1.dims.index(d_)] if d_ in g1.dims else None, bl))
+                else:
+                    # every slice along d equals the single input slice
+                    src1 = model.from_spec(sp1)
+                    kk = g1.dims.index(d_)
+                    for j in range(len(bl)):
+                        sl = model.MA(np.take(g1.values, [j], axis=kk), g1.dims, [l if i != kk else [src1.labels[k_][0]] for i, l in enumerate(g1.labels)])
+                        msg = model.check_coordmap(sl, src1, label1 + " slice %d" % j, introduced=tuple(q for q in g1.dims if q not in src1.dims))
+                        if msg:
+                            ctx.v(ID, "broadcast_arrays:singleton-values", msg)
+                            break
     elif fam == 'roundtrip' and nd:
         p = list(range(nd))
         rng.shuffle(p)
